@@ -1,2 +1,44 @@
-(* C08 — placeholder until the invariant proofs land (proofs/DomProofs.v). *)
-From Odf Require Import model.Base model.Dom.
+(* C08 — the node tree stays structurally consistent under any sequence of edits. *)
+From Odf Require Import model.Base model.Dom proofs.DomProofs.
+
+(* Consistent: every node listed among a parent's children has that parent and vice versa, each once;
+   previous/next links follow the child order; a detached node has no siblings; childless kinds have no
+   children.  WF adds: ids beyond `alloc` are unused. *)
+
+(* every operation keeps the heap consistent: appendChild, insertBefore (any reference, None included),
+   removeChild, addElement, addText, addCDATA; whether the operation succeeds or raises; attached to a
+   document or not. The only precondition is the one the property states: a node is not inserted into
+   itself (op_ok: ids allocated, c <> p) *)
+Theorem C08_step : forall h o, WF h -> op_ok h o -> WF (heap_of (step h o)).
+Proof. intros h o H1 H2. exact (proj1 (step_wf h o H1 H2)). Qed.
+Print Assumptions C08_step.
+
+(* hence every reachable heap, for histories of ANY length *)
+Theorem C08_reachable : forall ops h, WF h -> ops_ok h ops -> WF (run h ops).
+Proof. exact run_wf. Qed.
+Print Assumptions C08_reachable.
+
+(* ... starting, for instance, from any number of unlinked element and text nodes *)
+Theorem C08_from_scratch : forall a b ops, ops_ok (heap0 a b) ops -> Consistent (nodes (run (heap0 a b) ops)).
+Proof. intros a b ops H. exact (proj1 (run_wf ops _ (heap0_wf a b) H)). Qed.
+Print Assumptions C08_from_scratch.
+
+(* not-a-child: the DOM not-found error, and nothing changes *)
+Theorem C08_remove_not_child : forall h p c, ~ In c (kids (nodes h p)) -> remove_child h p c = RRaise NotFoundErr h.
+Proof. exact remove_not_child. Qed.
+Print Assumptions C08_remove_not_child.
+
+Theorem C08_insert_ref_not_child : forall h p c r, is_elem (nodes h p) = true -> ~ In r (kids (nodes h p)) ->
+  insert_before h p c (Some r) = RRaise NotFoundErr h.
+Proof. exact insert_ref_not_child. Qed.
+Print Assumptions C08_insert_ref_not_child.
+
+(* at most one parent, listed once; a moved node ends up exactly at the new place *)
+Theorem C08_one_parent : forall f q1 q2 c, Consistent f -> In c (kids (f q1)) -> In c (kids (f q2)) -> q1 = q2.
+Proof. exact one_parent. Qed.
+Print Assumptions C08_one_parent.
+
+Theorem C08_move_to_end : forall h p c h', Consistent (nodes h) -> c <> p ->
+  append_child h p c = ROk h' -> exists ks, kids (nodes h' p) = ks ++ [c].
+Proof. exact append_child_last. Qed.
+Print Assumptions C08_move_to_end.
